@@ -2,7 +2,7 @@ import CoapVerif.Lemmas.Uri
 import CoapVerif.Lemmas.UriSplit
 import CoapVerif.Lemmas.UriOpts
 /-
-C16 — [99, 111, 97, 112, 58, 47, 47, 69, 88, 65, 77, 80, 76, 69, 46, 99, 111, 109, 58, 49, 50, 51, 52, 47, 46, 46, 47, 120, 47, 37, 50, 101, 47, 121, 37, 50, 70, 122, 63, 97, 38, 98, 37, 50, 54] text and CoAP options convert both ways without loss, confusion or overread.
+C16 — URI text and CoAP options convert both ways without loss, confusion or overread.
 
   S = Coap.Spec.Uri   (RFC 3986 §2.1/§3/§5.2.4, RFC 7252 §6.4/§6.5; CoapVerif/Spec/Uri.lean, SPEC DECISIONS there)
   M = Coap.MU         (transcription of src/coap_uri.c after the fix: commits; CoapVerif/Model/Uri.lean)
@@ -171,7 +171,7 @@ example : getUriPath [[], []] = R.ok [0x2f] ∧ getUriPath [[]] = R.ok [] ∧ ge
 
 def toParts (u : MU.Uri) : UriParts := ⟨u.scheme, u.host, u.port, u.path, u.query⟩
 
-/-- M and S agree on one [99, 111, 97, 112, 58, 47, 47, 69, 88, 65, 77, 80, 76, 69, 46, 99, 111, 109, 58, 49, 50, 51, 52, 47, 46, 46, 47, 120, 47, 37, 50, 101, 47, 121, 37, 50, 70, 122, 63, 97, 38, 98, 37, 50, 54] string (accept / reject and every field) -/
+/-- M and S agree on one URI string (accept / reject and every field) -/
 def agree (proxy : Bool) (s : Bytes) : Prop :=
   (MU.splitUriSub proxy s).toOption.map toParts = Spec.Uri.splitUri Generated.Uri.schemes proxy s
 
@@ -219,7 +219,7 @@ theorem split_uri_eq_spec (proxy : Bool) (s : Bytes) (hu : unixAuthority s = fal
   | none => rfl
   | some parts => rfl
 
-/-- malformed [99, 111, 97, 112, 58, 47, 47, 69, 88, 65, 77, 80, 76, 69, 46, 99, 111, 109, 58, 49, 50, 51, 52, 47, 46, 46, 47, 120, 47, 37, 50, 101, 47, 121, 37, 50, 70, 122, 63, 97, 38, 98, 37, 50, 54]s are rejected: coap_split_uri returns an error exactly when S does not accept the string -/
+/-- malformed URIs are rejected: coap_split_uri returns an error exactly when S does not accept the string -/
 theorem split_uri_rejects_malformed (proxy : Bool) (s : Bytes) (hu : unixAuthority s = false) :
     MU.splitUriSub proxy s = R.rej ↔ Spec.Uri.splitUri Generated.Uri.schemes proxy s = none := by
   rw [(split_uri_eq_spec proxy s hu).2]
@@ -348,11 +348,11 @@ example : MU.splitPath (List.replicate 269 97) 271 = R.ok [] ∧
 
 theorem toParts_eq : toParts = partsOf := rfl
 
-/-- (P1, coap_uri_into_optlist(uri, dst, &chain, 1)) for every parsed [99, 111, 97, 112, 58, 47, 47, 69, 88, 65, 77, 80, 76, 69, 46, 99, 111, 109, 58, 49, 50, 51, 52, 47, 46, 46, 47, 120, 47, 37, 50, 101, 47, 121, 37, 50, 70, 122, 63, 97, 38, 98, 37, 50, 54] on which S is defined — host not a Unix
+/-- (P1, coap_uri_into_optlist(uri, dst, &chain, 1)) for every parsed URI on which S is defined — host not a Unix
 socket (D16f), escapes of the host (if it is emitted), the path and the query well formed — the option chain is
-exactly RFC 7252 §6.4's: Uri-Host (percent-decoded, lower case, D16g) unless the [99, 111, 97, 112, 58, 47, 47, 69, 88, 65, 77, 80, 76, 69, 46, 99, 111, 109, 58, 49, 50, 51, 52, 47, 46, 46, 47, 120, 47, 37, 50, 101, 47, 121, 37, 50, 70, 122, 63, 97, 38, 98, 37, 50, 54] has no authority or the host
+exactly RFC 7252 §6.4's: Uri-Host (percent-decoded, lower case, D16g) unless the URI has no authority or the host
 is the destination address literal `dst` (an IPv6 zone identifier not counting), Uri-Port (minimal big-endian)
-unless the port is the default of the [99, 111, 97, 112, 58, 47, 47, 69, 88, 65, 77, 80, 76, 69, 46, 99, 111, 109, 58, 49, 50, 51, 52, 47, 46, 46, 47, 120, 47, 37, 50, 101, 47, 121, 37, 50, 70, 122, 63, 97, 38, 98, 37, 50, 54]'s scheme, then one Uri-Path per path segment and one Uri-Query per query
+unless the port is the default of the URI's scheme, then one Uri-Path per path segment and one Uri-Query per query
 argument as `split_path_eq_spec` / `split_query_eq_spec` describe them, none for an empty path / query.
 `scheme < 8` and `port < 65536` are the ranges of the C types (enum coap_uri_scheme_t, uint16_t). -/
 theorem uri_into_optlist_eq_spec (dst : Bytes) (u : MU.Uri) (opts : List (Nat × Bytes)) (hs : u.scheme < 8)
@@ -360,7 +360,7 @@ theorem uri_into_optlist_eq_spec (dst : Bytes) (u : MU.Uri) (opts : List (Nat ×
     uriIntoOptlist dst u = R.ok opts := uriIntoOptlist_eq dst u opts hs hp h
 
 /-- (P1, end to end: coap_split_uri / coap_split_proxy_uri, then coap_uri_into_optlist) for **every** byte string
-that S accepts as a [99, 111, 97, 112, 58, 47, 47, 69, 88, 65, 77, 80, 76, 69, 46, 99, 111, 109, 58, 49, 50, 51, 52, 47, 46, 46, 47, 120, 47, 37, 50, 101, 47, 121, 37, 50, 70, 122, 63, 97, 38, 98, 37, 50, 54] and whose options S defines, libcoap accepts it with S's fields and builds exactly S's
+that S accepts as a URI and whose options S defines, libcoap accepts it with S's fields and builds exactly S's
 options. -/
 theorem uri_to_options_eq_spec (dst : Bytes) (proxy : Bool) (s : Bytes) (parts : UriParts) (opts : List (Nat × Bytes))
     (hS : Spec.Uri.splitUri Generated.Uri.schemes proxy s = some parts)
@@ -381,8 +381,8 @@ theorem uri_to_options_eq_spec (dst : Bytes) (proxy : Bool) (s : Bytes) (parts :
   · rw [(split_uri_eq_spec proxy s hua).2, hS]
   · exact uriIntoOptlist_eq dst (uriOf parts) opts i1 i2 hO
 
-/-- S's options are defined for every accepted [99, 111, 97, 112, 58, 47, 47, 69, 88, 65, 77, 80, 76, 69, 46, 99, 111, 109, 58, 49, 50, 51, 52, 47, 46, 46, 47, 120, 47, 37, 50, 101, 47, 121, 37, 50, 70, 122, 63, 97, 38, 98, 37, 50, 54] except for the two cases S leaves open: a Unix-socket host
-(D16f) and an emitted host with a malformed escape (D4) — path and query of an accepted [99, 111, 97, 112, 58, 47, 47, 69, 88, 65, 77, 80, 76, 69, 46, 99, 111, 109, 58, 49, 50, 51, 52, 47, 46, 46, 47, 120, 47, 37, 50, 101, 47, 121, 37, 50, 70, 122, 63, 97, 38, 98, 37, 50, 54] always split. -/
+/-- S's options are defined for every accepted URI except for the two cases S leaves open: a Unix-socket host
+(D16f) and an emitted host with a malformed escape (D4) — path and query of an accepted URI always split. -/
 theorem uri_options_defined (dst : Bytes) (proxy : Bool) (s : Bytes) (parts : UriParts)
     (hS : Spec.Uri.splitUri Generated.Uri.schemes proxy s = some parts) (hux : unixHost parts.host = false)
     (hh : parts.host = [] ∨ hostAddr parts.host = dst ∨ Spec.Uri.escapesOk parts.host = true) :
@@ -435,7 +435,18 @@ example : (Spec.Uri.splitUri Generated.Uri.schemes false [99, 111, 97, 112, 115,
 example : (Spec.Uri.splitUri Generated.Uri.schemes false [99, 111, 97, 112, 58, 47, 47, 91, 102, 101, 56, 48, 58, 58, 49, 37, 50, 53, 101, 116, 104, 48, 93, 47]).bind (uriOptions Generated.Uri.schemes [102, 101, 56, 48, 58, 58, 49]) =
     some [] := by decide
 
-/-! ### round trip: [99, 111, 97, 112, 58, 47, 47, 69, 88, 65, 77, 80, 76, 69, 46, 99, 111, 109, 58, 49, 50, 51, 52, 47, 46, 46, 47, 120, 47, 37, 50, 101, 47, 121, 37, 50, 70, 122, 63, 97, 38, 98, 37, 50, 54] → options → reconstructed string → options -/
+/-- (P2, "reads only the bytes of the length-delimited input", the URI level) for **every** byte string — Unix-socket
+authorities (D16f) and malformed hosts included — and every parsed URI, coap_split_uri / coap_split_proxy_uri and
+coap_uri_into_optlist stay inside what they were given (every read of the model is guarded by the remaining length
+exactly as in the C code; the component calls are those of `no_overread`). -/
+theorem uri_no_overread (dst : Bytes) (proxy : Bool) (s : Bytes) (u : MU.Uri) :
+    MU.splitUriSub proxy s ≠ R.oob ∧ uriIntoOptlist dst u ≠ R.oob :=
+  ⟨splitUriSub_not_oob proxy s, uriIntoOptlist_not_oob dst u⟩
+
+-- a Unix-socket authority: outside S, still parsed inside the buffer ("coap://%2Fs": host "%2Fs", port 0)
+example : MU.splitUriSub false [99, 111, 97, 112, 58, 47, 47, 37, 50, 70, 115] = R.ok ⟨0, [37, 50, 70, 115], 0, [], []⟩ := by decide
+
+/-! ### round trip: URI → options → reconstructed string → options -/
 
 /-- (P2) path string → Uri-Path options → the path string coap_get_uri_path reconstructs (the resource lookup key)
 → options again is the identity on option lists, a single empty segment counting as no segment — for every path
